@@ -152,18 +152,42 @@ func makePlaintextRedirects(allConfigs []*SiteConfig) []*SiteConfig {
 	httpPort := strconv.Itoa(certmagic.HTTPPort)
 	httpsPort := strconv.Itoa(certmagic.HTTPSPort)
 	for i, cfg := range allConfigs {
-		if cfg.TLS.Enabled &&
-			!cfg.TLS.NoRedirect &&
-			// an explicitly-HTTP site keeps serving plain HTTP even if its
-			// block contains tls (MakeServers disables TLS for it), so there
-			// is nothing to redirect to
-			cfg.Addr.Scheme != "http" && cfg.Addr.Port != httpPort &&
+		if wantsPlaintextRedirect(cfg, httpPort) &&
 			!hostHasOtherPort(allConfigs, i, httpPort) &&
-			(cfg.Addr.Port == httpsPort || !hostHasOtherPort(allConfigs, i, httpsPort)) {
+			(cfg.Addr.Port == httpsPort || !hostHasRedirectingSiteOnPort(allConfigs, i, httpsPort, httpPort)) {
 			allConfigs = append(allConfigs, redirPlaintextHost(cfg))
 		}
 	}
 	return allConfigs
+}
+
+// wantsPlaintextRedirect returns true if cfg is a site that a redirect from
+// the HTTP port may point to: TLS is on, redirects are not disabled, and the
+// site is not explicitly HTTP. (An explicitly-HTTP site keeps serving plain
+// HTTP even if its block contains tls, because MakeServers disables TLS for
+// it, so there is nothing to redirect to.)
+func wantsPlaintextRedirect(cfg *SiteConfig, httpPort string) bool {
+	return cfg.TLS != nil && cfg.TLS.Enabled &&
+		!cfg.TLS.NoRedirect &&
+		cfg.Addr.Scheme != "http" && cfg.Addr.Port != httpPort
+}
+
+// hostHasRedirectingSiteOnPort is like hostHasOtherPort, but only counts
+// configs that get a redirect themselves. A site defers to the site of the
+// same host on the HTTPS port only if that site makes the redirect; a site
+// there with TLS off or with no_redirect would leave the host without any.
+func hostHasRedirectingSiteOnPort(allConfigs []*SiteConfig, thisConfigIdx int, otherPort, httpPort string) bool {
+	for i, otherCfg := range allConfigs {
+		if i == thisConfigIdx {
+			continue
+		}
+		if otherCfg.Addr.Host == allConfigs[thisConfigIdx].Addr.Host &&
+			otherCfg.Addr.Port == otherPort &&
+			wantsPlaintextRedirect(otherCfg, httpPort) {
+			return true
+		}
+	}
+	return false
 }
 
 // hostHasOtherPort returns true if there is another config in the list with the same
